@@ -51,7 +51,7 @@ def run(tier, seed, t0, only=None, pid=PID, obj=OBJ, files=FILES, shapes=None):
                                       name=f'{be}:{obj}-impl:{shape}:moore={moore}:plus_one={plus_one}:{grp[0]}'
                                            + ('' if part is None else f'@state{part}')))
     nmem = 96 if tier == 'quick' else 600
-    for shape in ('S11g2', 'S11g3', 'S11h2', 'S11g2h2', 'B11a', 'B02g2', 'B02g2h2'):
+    for shape in ('S11g2', 'S11g3', 'S11h2', 'S11g2h2', 'B11a', 'B11b', 'B02g2', 'B02g2h2'):
         for moore, plus_one in c01.MODES:
             sds = [seed * 7919 + i * 104729 + 13 for i in range(nmem)]
             for i in range(0, nmem, 24):
